@@ -46,7 +46,7 @@ def primary_output(d):
         return n
     if k == 'slib':
         return 'lib%s.a' % n
-    if k == 'shlib':
+    if k in ('shlib', 'dlib'):
         return 'lib%s.so' % n
     if k == 'step':
         return n + '.c'
@@ -64,9 +64,9 @@ def bfg_text(decls, header=''):
         L.append(header)
     for d in decls:
         k, n = d['kind'], d['name']
-        if k in ('exe', 'slib', 'shlib'):
+        if k in ('exe', 'slib', 'shlib', 'dlib'):
             fn = {'exe': 'executable', 'slib': 'static_library',
-                  'shlib': 'shared_library'}[k]
+                  'shlib': 'shared_library', 'dlib': 'library'}[k]
             srcs = '[' + ', '.join(ref_expr(r, decls) for r in d['srcs']) + ']'
             libs = '[' + ', '.join(d['libs']) + ']'
             incs = ''
@@ -161,7 +161,11 @@ def make_project(decls, backend, header='', extra_files=None):
     files['build.bfg'] = bfg_text(decls, header)
     if extra_files:
         files.update(extra_files)
-    return regen.Proj(files, backend=backend)
+    p = regen.Proj(files, backend=backend)
+    if any(d['kind'] == 'dlib' for d in decls):
+        # library() makes a dual-use library only in this mode
+        p.args += ['--enable-shared', '--enable-static']
+    return p
 
 
 def target_of_obj(path):
@@ -184,6 +188,12 @@ class Runner:
         self.log = os.path.join(self.p.root, 'stub.log')
         self.outs = {d['name']: primary_output(d) for d in decls
                      if primary_output(d)}
+        # the archive half of a dual-use library is a step of its own
+        self.arnames = {d['name'] + '_a' for d in decls
+                        if d['kind'] == 'dlib'}
+        for d in decls:
+            if d['kind'] == 'dlib':
+                self.outs[d['name'] + '_a'] = 'lib%s.a' % d['name']
 
     def close(self):
         self.p.close()
@@ -238,7 +248,7 @@ class Runner:
                     compiled.append({'t': target_of_obj(obj), 's': s})
         # steps that produced output without a STEP record (mtime only) are
         # already in `ran`; keep only declared targets
-        names = {d['name'] for d in self.decls}
+        names = {d['name'] for d in self.decls} | self.arnames
         return {'ev': 'Build', 'goal': goal, 'exit': rc,
                 'ran': sorted(ran & names), 'compiled': compiled,
                 'out': out[-400:] if rc else ''}
